@@ -16,10 +16,10 @@ type (
 		V   int64
 		Big string // decimal text of a literal that does not fit int64
 	}
-	SStr   struct{ V string }
-	SBool  struct{ V bool }
-	SNil   struct{}
-	SUn    struct {
+	SStr  struct{ V string }
+	SBool struct{ V bool }
+	SNil  struct{}
+	SUn   struct {
 		Op string
 		X  SExpr
 	}
